@@ -186,12 +186,10 @@ structure DistOps (D : Type) where
 
 variable {D : Type}
 
-/-- `while (end > begin && path[begin] == path[end]) flags[end--] = false;` -/
-def rdpShrink (path : List Pt) (b : Nat) : Nat → List Bool → Nat × List Bool
-  | 0, flags => (0, flags)
-  | e + 1, flags =>
-      if e + 1 > b ∧ nth path b = nth path (e + 1) then rdpShrink path b e (flags.set (e + 1) false)
-      else (e + 1, flags)
+/-- `while (end > begin && path[begin] == path[end]) --end;` : the new `end` -/
+def rdpShrink (path : List Pt) (b : Nat) : Nat → Nat
+  | 0 => 0
+  | e + 1 => if e + 1 > b ∧ nth path b = nth path (e + 1) then rdpShrink path b e else e + 1
 
 /-- the `for (i = begin + 1; i < end; ++i)` loop: returns `(idx, max_d)` -/
 def rdpMax (ops : DistOps D) (path : List Pt) (b e : Nat) : Nat × D :=
@@ -204,9 +202,9 @@ def rdpMax (ops : DistOps D) (path : List Pt) (b e : Nat) : Nat × D :=
 def rdp (ops : DistOps D) (path : List Pt) (eps : D) : Nat → Nat → Nat → List Bool → List Bool
   | 0, _, _, flags => flags
   | fuel + 1, b, e, flags =>
-    let s := rdpShrink path b e flags
-    let e' := s.1
-    let flags := s.2
+    let e' := rdpShrink path b e
+    -- `flags[end] = true;`
+    let flags := flags.set e' true
     let m := rdpMax ops path b e'
     let idx := m.1
     if ops.le m.2 eps then flags else
